@@ -142,7 +142,7 @@ class HistEngine(EngineBase):
         t = ch.choice(self.sub_callers, "subc")
         return "sc_" + stable_hash(t)[:8], [t], "subcaller"
 
-    def name_variant(self, ch: Chooser, name: str):
+    def name_variant(self, ch: Chooser, name: str, used=()):
         r = ch.draw(14, "namevar")
         if r == 0:
             return "dep_" + name
@@ -156,8 +156,10 @@ class HistEngine(EngineBase):
             return ch.choice(self.noped, "noped")
         if r == 5 and self.noped:
             return "dep_" + ch.choice(self.noped, "noped")
-        if r == 6:
-            # the API takes any name: another instruction's name with this behaviour
+        if r in (6, 7):
+            # the API takes any name: a name this history already compiled (with another behaviour), else any other one
+            if used:
+                return ch.choice(sorted(used), "usedname")
             return ch.choice(self.names, "othername")
         return name
 
